@@ -235,7 +235,8 @@ def api_main(g, job):
             steps = call.get("steps", 1)
             kw = cf.get("session_kw", {})
             bulk = op == "getbulk" or (op == "fetch" and ver != "v1" and kw.get("allow_bulk", True))
-            mr = (call.get("maxrep") or kw.get("max_repetitions", 20)) if op == "getbulk" else kw.get("max_repetitions", 20)
+            dflt = kw.get("max_repetitions", vf.default_max_repetitions(cf.get("mode", "sync")))
+            mr = (call.get("maxrep") or dflt) if op == "getbulk" else dflt
             cur = base
             script = []
             for j in range(steps):
